@@ -4,10 +4,10 @@ CONSTANTS
   Types = {0, 1, 2, 3, 4, 5, 6, 7, 8, 9}
   Langs = {0, 1, 2, 3, 4, 5, 6, 7, 8, 9}
   Names = {0, 1, 2, 3, 4, 5, 6, 7, 8, 9}
-  Feats = {1, 2, 3, 4, 5, 6, 7, 8, 9}
+  Feats = {0, 1, 2, 3, 4, 5, 6, 7, 8, 9}
   FTypes = {1, 2, 3, 4, 5, 6, 7, 8, 9}
-  Vars = {1, 2, 3, 4, 5, 6, 7, 8, 9}
-  Vals = {1, 2, 3, 4, 5, 6, 7, 8, 9}
+  Vars = {0, 1, 2, 3, 4, 5, 6, 7, 8, 9}
+  Vals = {0, 1, 2, 3, 4, 5, 6, 7, 8, 9}
   MaxIds = 99
   MaxFeats = 99
   MaxFields = 99
